@@ -286,6 +286,8 @@ impl Segment {
     pub async fn shutdown_writing(&mut self) {
         if let Some(log_writer) = self.log_writer.take() {
             tokio::spawn(async move {
+                #[cfg(feature = "iggy_verif")]
+                crate::verif::chaos_point("segment.close_log_writer").await;
                 let _ = log_writer.fsync().await;
                 log_writer.shutdown_persister_task().await;
             });
